@@ -414,6 +414,42 @@ func c16R5(p *Prog, r *Report) {
 		}
 	}
 	r.Check(okAnn, rule, "httpproxy.serverForwardRequests:announce-before-write", p.posStr(fq.Body.Pos()), "the request is offered on reqCh before req.Write in every iteration", "a request can be written to the origin before (or without) being announced to the response side: its response is paired with the wrong request, or an interim response blocks the write forever")
+	// every request written to the origin's buffered writer is flushed before the loop waits for the
+	// next request or ends: the early exits (host change, later CONNECT, read error, clean EOF) and
+	// the caller's CloseWrite assume nothing is left in the buffer — an unflushed request never
+	// reaches the origin (or reaches it only when the client sends another one)
+	{
+		flush := map[int]bool{}
+		var readReq []int
+		for _, cs := range fq.AllCalls() {
+			if cs.Fn == nil {
+				continue
+			}
+			if cs.Fn.Name() == "Flush" && len(cs.Call.Args) == 0 {
+				if sel, ok := ast.Unparen(cs.Call.Fun).(*ast.SelectorExpr); ok && objOf(qinfo, sel.X) == fq.ParamObj(3) {
+					flush[cs.V] = true
+				}
+			}
+			if cs.Fn.Name() == "ReadRequest" {
+				readReq = append(readReq, cs.V)
+			}
+		}
+		bad := ""
+		if writeV >= 0 {
+			reach := fq.G.ReachAfter(writeV, func(v *Vertex) bool { return flush[v.ID] }, nil)
+			for _, rv := range readReq {
+				if reach[rv] && !flush[rv] {
+					bad = "the next request is read (" + p.posStr(fq.G.V[rv].Node.Pos()) + ")"
+				}
+			}
+			for _, ret := range fq.Returns() {
+				if reach[ret] && !flush[ret] && fq.ErrAtReturn(ret) != ErrNonNil {
+					bad = "the function returns without an error (" + p.posStr(fq.G.V[ret].Node.Pos()) + ")"
+				}
+			}
+		}
+		r.Check(writeV >= 0 && len(flush) > 0 && bad == "", rule, "httpproxy.serverForwardRequests:written-request-is-flushed", p.posStr(fq.Body.Pos()), "after req.Write every path to the next ReadRequest or to a successful return passes the writer's Flush", "a request written to the origin's buffered writer can stay unflushed: "+bad+" on a path from req.Write that does not pass Flush — with pipelined input the request never reaches the origin before the connection is closed, or is withheld until the client sends more")
+	}
 	fr := p.Func("httpproxy", "", "serverForwardResponses")
 	rinfo := fr.Info()
 	var recvV = -1
